@@ -1,3 +1,4 @@
+use pretty::DocAllocator;
 use typst_syntax::{ast::*, SyntaxKind};
 
 use super::{
@@ -104,10 +105,31 @@ impl<'a> PrettyPrinter<'a> {
                 .last()
                 .is_some_and(|child| child.kind() == SyntaxKind::Comma);
 
+        // In a row of 2D math args, a backslash at the end of an item must not touch
+        // the comma that follows: `\,` is an escape.
+        let needs_blank_before_comma = |node: ArrayItem<'a>| {
+            let mut leaf = node.to_untyped();
+            while let Some(last) = leaf.children().next_back() {
+                leaf = last;
+            }
+            !is_explicit
+                && leaf.kind() == SyntaxKind::Linebreak
+                && (array.to_untyped().children())
+                    .skip_while(|it| !std::ptr::eq(*it, node.to_untyped()))
+                    .skip(1)
+                    .find(|it| it.kind() != SyntaxKind::Space)
+                    .is_some_and(|it| it.kind() == SyntaxKind::Comma)
+        };
+
         ListStylist::new(self)
             .with_fold_style(self.get_fold_style(ctx, array))
             .process_list(ctx, array.to_untyped(), |ctx, node| {
-                self.convert_array_item(ctx, node)
+                let item = self.convert_array_item(ctx, node);
+                if needs_blank_before_comma(node) {
+                    item + self.arena.space()
+                } else {
+                    item
+                }
             })
             .print_doc(ListStyle {
                 add_trailing_sep_single: is_explicit,
